@@ -214,22 +214,36 @@ Init == /\ fam \in Families
         /\ cver = [c \in CallerCells |-> 0]
         /\ hist = <<>>
 
+Ms == 1..Len(hist)
 Next == \/ \E it \in {0, 1, 3} : KMeansFit(it)
-        \/ \E m \in 1..Len(hist) : KMeansTransform(m) \/ KMeansPredict(m) \/ KMeansVarWeights(m)
+        \/ \E m \in Ms : KMeansTransform(m)
+        \/ \E m \in Ms : KMeansPredict(m)
+        \/ \E m \in Ms : KMeansVarWeights(m)
         \/ GmmFitML
         \/ \E f \in {"construct", "initialize"} : MapConstruct(f)
         \/ \E a \in {0, 1} : GmmFitMAP(a)
-        \/ \E m \in 0..Len(hist) : GmmAccStats(m) \/ GmmTransform(m) \/ GmmLogLikelihood(m)
-        \/ StatsAdd \/ StatsIAdd
+        \/ \E m \in Ms \cup {0} : GmmAccStats(m)
+        \/ \E m \in Ms \cup {0} : GmmTransform(m)
+        \/ \E m \in Ms \cup {0} : GmmLogLikelihood(m)
+        \/ StatsAdd
+        \/ StatsIAdd
         \/ \E f \in {"array", "machines"} : LinearScoring(f)
-        \/ FaFit \/ FaFitUsingArray
-        \/ \E m \in 1..Len(hist) : \/ FaEnroll(m) \/ FaEnrollUsingArray(m) \/ FaScoreUsingArray(m)
-                                   \/ FaEstimateX(m) \/ FaEstimateUx(m) \/ IsvTransform(m)
-                                   \/ \E f \in {"single", "list", "nested"} : FaScore(m, f)
+        \/ FaFit
+        \/ FaFitUsingArray
+        \/ \E m \in Ms : FaEnroll(m)
+        \/ \E m \in Ms : FaEnrollUsingArray(m)
+        \/ \E m \in Ms, f \in {"single", "list", "nested"} : FaScore(m, f)
+        \/ \E m \in Ms : FaScoreUsingArray(m)
+        \/ \E m \in Ms : FaEstimateX(m)
+        \/ \E m \in Ms : FaEstimateUx(m)
+        \/ \E m \in Ms : IsvTransform(m)
         \/ IvFit
-        \/ \E m \in 1..Len(hist) : IvProject(m) \/ IvTransform(m)
-        \/ WccnFit \/ WhiteningFit
-        \/ \E m \in 1..Len(hist) : WccnTransform(m) \/ WhiteningTransform(m)
+        \/ \E m \in Ms : IvProject(m)
+        \/ \E m \in Ms : IvTransform(m)
+        \/ WccnFit
+        \/ \E m \in Ms : WccnTransform(m)
+        \/ WhiteningFit
+        \/ \E m \in Ms : WhiteningTransform(m)
         \/ \E c \in CallerCells : CallerOverwrites(c)
 Spec == Init /\ [][Next]_vars
 
